@@ -1,0 +1,315 @@
+// Licensed to the Apache Software Foundation (ASF) under one
+// or more contributor license agreements.  See the NOTICE file
+// distributed with this work for additional information
+// regarding copyright ownership.  The ASF licenses this file
+// to you under the Apache License, Version 2.0 (the
+// "License"); you may not use this file except in compliance
+// with the License.  You may obtain a copy of the License at
+//
+//   http://www.apache.org/licenses/LICENSE-2.0
+//
+// Unless required by applicable law or agreed to in writing,
+// software distributed under the License is distributed on an
+// "AS IS" BASIS, WITHOUT WARRANTIES OR CONDITIONS OF ANY
+// KIND, either express or implied.  See the License for the
+// specific language governing permissions and limitations
+// under the License.
+
+//! Verification hooks, compiled only with `--cfg datafusion_verif`.
+//!
+//! A test harness may install a per-thread [`Sched`] callback. The synchronisation shims generated
+//! by [`verif_sync_shims!`](crate::verif_sync_shims) call it before every lock acquisition and atomic
+//! access of the files that opted in, which lets the harness own the interleaving of a small number
+//! of actor threads (one runs at a time). Without an installed callback the shims delegate straight
+//! to `parking_lot` / `std::sync::atomic` and behaviour is unchanged.
+
+use std::cell::RefCell;
+use std::panic::Location;
+use std::sync::Arc;
+
+/// Callback interface implemented by the harness scheduler.
+pub trait Sched: Send + Sync {
+    /// Called before a shared-memory operation (`op` names it, `at` is the call site).
+    fn yield_point(&self, op: &'static str, at: &'static Location<'static>);
+    /// Called when a lock could not be taken; the caller retries after this returns.
+    fn blocked(&self, op: &'static str, at: &'static Location<'static>);
+}
+
+thread_local! {
+    static CURRENT: RefCell<Option<Arc<dyn Sched>>> = const { RefCell::new(None) };
+}
+
+/// Install a scheduler callback for the current thread.
+pub fn install(sched: Arc<dyn Sched>) {
+    CURRENT.with(|c| *c.borrow_mut() = Some(sched));
+}
+
+/// Remove the scheduler callback of the current thread.
+pub fn uninstall() {
+    CURRENT.with(|c| *c.borrow_mut() = None);
+}
+
+/// True if a scheduler callback is installed on the current thread.
+pub fn active() -> bool {
+    CURRENT.with(|c| c.borrow().is_some())
+}
+
+fn current() -> Option<Arc<dyn Sched>> {
+    CURRENT.with(|c| c.borrow().clone())
+}
+
+/// Hand control to the scheduler (no-op without one).
+pub fn yield_point(op: &'static str, at: &'static Location<'static>) {
+    if let Some(s) = current() {
+        s.yield_point(op, at);
+    }
+}
+
+/// Report a failed lock attempt to the scheduler (plain thread yield without one).
+pub fn blocked(op: &'static str, at: &'static Location<'static>) {
+    match current() {
+        Some(s) => s.blocked(op, at),
+        None => std::thread::yield_now(),
+    }
+}
+
+/// Expands, in the calling crate, to a module `verif_shims` with drop-in replacements for
+/// `parking_lot::{Mutex, RwLock}` (the calling crate's `parking_lot`) and for
+/// `std::sync::atomic::{AtomicUsize, AtomicU64}` that report to the installed [`Sched`].
+#[macro_export]
+macro_rules! verif_sync_shims {
+    () => {
+        #[allow(dead_code, missing_docs, unused_qualifications, clippy::all, clippy::pedantic)]
+        pub(crate) mod verif_shims {
+            use std::panic::Location;
+            use $crate::verif::{active, blocked, yield_point};
+
+            pub struct Mutex<T: ?Sized>(parking_lot::Mutex<T>);
+
+            impl<T> Mutex<T> {
+                pub const fn new(value: T) -> Self {
+                    Self(parking_lot::Mutex::new(value))
+                }
+                pub fn into_inner(self) -> T {
+                    self.0.into_inner()
+                }
+            }
+
+            impl<T: ?Sized> Mutex<T> {
+                #[track_caller]
+                pub fn lock(&self) -> parking_lot::MutexGuard<'_, T> {
+                    if !active() {
+                        return self.0.lock();
+                    }
+                    let at = Location::caller();
+                    yield_point("mutex.lock", at);
+                    loop {
+                        if let Some(guard) = self.0.try_lock() {
+                            return guard;
+                        }
+                        blocked("mutex.lock", at);
+                    }
+                }
+                #[track_caller]
+                pub fn try_lock(&self) -> Option<parking_lot::MutexGuard<'_, T>> {
+                    yield_point("mutex.try_lock", Location::caller());
+                    self.0.try_lock()
+                }
+                pub fn get_mut(&mut self) -> &mut T {
+                    self.0.get_mut()
+                }
+            }
+
+            impl<T: Default> Default for Mutex<T> {
+                fn default() -> Self {
+                    Self::new(T::default())
+                }
+            }
+
+            impl<T: ?Sized + std::fmt::Debug> std::fmt::Debug for Mutex<T> {
+                fn fmt(&self, f: &mut std::fmt::Formatter<'_>) -> std::fmt::Result {
+                    self.0.fmt(f)
+                }
+            }
+
+            pub struct RwLock<T: ?Sized>(parking_lot::RwLock<T>);
+
+            impl<T> RwLock<T> {
+                pub const fn new(value: T) -> Self {
+                    Self(parking_lot::RwLock::new(value))
+                }
+                pub fn into_inner(self) -> T {
+                    self.0.into_inner()
+                }
+            }
+
+            impl<T: ?Sized> RwLock<T> {
+                #[track_caller]
+                pub fn read(&self) -> parking_lot::RwLockReadGuard<'_, T> {
+                    if !active() {
+                        return self.0.read();
+                    }
+                    let at = Location::caller();
+                    yield_point("rwlock.read", at);
+                    loop {
+                        if let Some(guard) = self.0.try_read() {
+                            return guard;
+                        }
+                        blocked("rwlock.read", at);
+                    }
+                }
+                #[track_caller]
+                pub fn write(&self) -> parking_lot::RwLockWriteGuard<'_, T> {
+                    if !active() {
+                        return self.0.write();
+                    }
+                    let at = Location::caller();
+                    yield_point("rwlock.write", at);
+                    loop {
+                        if let Some(guard) = self.0.try_write() {
+                            return guard;
+                        }
+                        blocked("rwlock.write", at);
+                    }
+                }
+                pub fn get_mut(&mut self) -> &mut T {
+                    self.0.get_mut()
+                }
+            }
+
+            impl<T: Default> Default for RwLock<T> {
+                fn default() -> Self {
+                    Self::new(T::default())
+                }
+            }
+
+            impl<T: ?Sized + std::fmt::Debug> std::fmt::Debug for RwLock<T> {
+                fn fmt(&self, f: &mut std::fmt::Formatter<'_>) -> std::fmt::Result {
+                    self.0.fmt(f)
+                }
+            }
+
+            pub mod atomic {
+                pub use std::sync::atomic::Ordering;
+                use std::panic::Location;
+                use $crate::verif::yield_point;
+
+                $crate::verif_atomic_shim!(AtomicUsize, usize);
+                $crate::verif_atomic_shim!(AtomicU64, u64);
+            }
+        }
+    };
+}
+
+/// Helper of [`verif_sync_shims!`](crate::verif_sync_shims): one atomic integer shim.
+#[macro_export]
+macro_rules! verif_atomic_shim {
+    ($name:ident, $prim:ty) => {
+            pub struct $name(std::sync::atomic::$name);
+
+            impl $name {
+                pub const fn new(value: $prim) -> Self {
+                    Self(std::sync::atomic::$name::new(value))
+                }
+                pub fn into_inner(self) -> $prim {
+                    self.0.into_inner()
+                }
+                pub fn get_mut(&mut self) -> &mut $prim {
+                    self.0.get_mut()
+                }
+                #[track_caller]
+                pub fn load(&self, order: Ordering) -> $prim {
+                    yield_point("atomic.load", Location::caller());
+                    self.0.load(order)
+                }
+                #[track_caller]
+                pub fn store(&self, value: $prim, order: Ordering) {
+                    yield_point("atomic.store", Location::caller());
+                    self.0.store(value, order)
+                }
+                #[track_caller]
+                pub fn swap(&self, value: $prim, order: Ordering) -> $prim {
+                    yield_point("atomic.swap", Location::caller());
+                    self.0.swap(value, order)
+                }
+                #[track_caller]
+                pub fn fetch_add(&self, value: $prim, order: Ordering) -> $prim {
+                    yield_point("atomic.fetch_add", Location::caller());
+                    self.0.fetch_add(value, order)
+                }
+                #[track_caller]
+                pub fn fetch_sub(&self, value: $prim, order: Ordering) -> $prim {
+                    yield_point("atomic.fetch_sub", Location::caller());
+                    self.0.fetch_sub(value, order)
+                }
+                #[track_caller]
+                pub fn fetch_max(&self, value: $prim, order: Ordering) -> $prim {
+                    yield_point("atomic.fetch_max", Location::caller());
+                    self.0.fetch_max(value, order)
+                }
+                #[track_caller]
+                pub fn fetch_min(&self, value: $prim, order: Ordering) -> $prim {
+                    yield_point("atomic.fetch_min", Location::caller());
+                    self.0.fetch_min(value, order)
+                }
+                #[track_caller]
+                pub fn compare_exchange(
+                    &self,
+                    current: $prim,
+                    new: $prim,
+                    success: Ordering,
+                    failure: Ordering,
+                ) -> Result<$prim, $prim> {
+                    yield_point("atomic.compare_exchange", Location::caller());
+                    self.0.compare_exchange(current, new, success, failure)
+                }
+                #[track_caller]
+                pub fn compare_exchange_weak(
+                    &self,
+                    current: $prim,
+                    new: $prim,
+                    success: Ordering,
+                    failure: Ordering,
+                ) -> Result<$prim, $prim> {
+                    // never fails spuriously under the harness: schedules stay replayable
+                    yield_point("atomic.compare_exchange", Location::caller());
+                    self.0.compare_exchange(current, new, success, failure)
+                }
+                /// Same contract as the std method; every retry is its own yield point.
+                #[track_caller]
+                pub fn fetch_update<F>(
+                    &self,
+                    set_order: Ordering,
+                    fetch_order: Ordering,
+                    mut f: F,
+                ) -> Result<$prim, $prim>
+                where
+                    F: FnMut($prim) -> Option<$prim>,
+                {
+                    let at = Location::caller();
+                    yield_point("atomic.fetch_update.load", at);
+                    let mut prev = self.0.load(fetch_order);
+                    while let Some(next) = f(prev) {
+                        yield_point("atomic.fetch_update.cas", at);
+                        match self.0.compare_exchange(prev, next, set_order, fetch_order) {
+                            Ok(x) => return Ok(x),
+                            Err(actual) => prev = actual,
+                        }
+                    }
+                    Err(prev)
+                }
+            }
+
+            impl Default for $name {
+                fn default() -> Self {
+                    Self::new(Default::default())
+                }
+            }
+
+            impl std::fmt::Debug for $name {
+                fn fmt(&self, f: &mut std::fmt::Formatter<'_>) -> std::fmt::Result {
+                    self.0.fmt(f)
+                }
+            }
+    };
+}
